@@ -21,6 +21,8 @@ func init() {
 			"PV-ROLE build recursion: each recursive call is on an operand field of the current node (nested aggregations are not flattened)",
 			"PV-CMP comparators are not differences",
 			"PV-WHOLE LabelSet.Range visits every label",
+			"PV-PAIR a sample carries the label set built for its own entry",
+			"PV-ROLE every value vectorAggIterator reports is an aggregator's Result()",
 		},
 		NotDecided: []string{"aggregate arithmetic (Welford, NaN handling)", "final ordering for ties", "container/heap correctness"},
 		Rules: func(r *Run) {
@@ -43,6 +45,8 @@ func init() {
 			ruleBuildKeepsTree(r)
 			ruleComparatorsNoSubtraction(r, []string{enginePkg, metricPkg})
 			ruleLabelSetRangeWhole(r)
+			ruleSampleLabelSet(r)
+			ruleVectorAggValuesFromAggregator(r)
 		},
 	})
 }
